@@ -1,9 +1,11 @@
 """C11 — primitive distance functions: global minimum (structural clauses)."""
+from . import scopes
 from ..core.report import DOMAIN_D
 from ..rules import features, degree, roles, mirror
 
 
 def run(idx, rep, tier):
+    rep.set_scope(scopes.scope(idx, "C11"))
     rep.explanation = (
         "R-FEATURES: the candidate enumerations the optimality arguments rest on are complete (3 edges per triangle through "
         "the i0/i1 wrap-around, 2x2 rectangle edges, 2x3 box faces, every rectangle vertex) and candidate loops are cut short "
